@@ -3,7 +3,7 @@
    FileSystemEntry constructor and the two mappers on arbitrary arguments. *)
 From Coq Require Import List ZArith Bool.
 From NT Require Import Sx Rose.
-From NT Require Export FsLoad.
+From NT Require Export FsLoad FsRepr.
 Import ListNotations.
 Open Scope Z_scope.
 
@@ -12,7 +12,8 @@ Inductive case19 :=
 | CEntry (name : text) (is_dir : bool) (size : option Z) (mdate : option mtime) (data0 : dict)
 | CDeser (data : dict)
 | CSort (l : list (text * Z))                      (* sorted(entries, key=attrgetter("name")) *)
-| CPathSort (parent : path) (l : list (text * Z)). (* sorted([(parent / name, tag)], key=itemgetter(0)) *)
+| CPathSort (parent : path) (l : list (text * Z))  (* sorted([(parent / name, tag)], key=itemgetter(0)) *)
+| CRepr (printable : list Z) (name : text) (is_dir : bool) (size : option Z) (mdate : option mtime).
 
 Definition sx_ofse (o : option fse) : sx := sx_opt sx_fse o.
 
@@ -31,4 +32,9 @@ Definition run19 (c : case19) : sx :=
   | CPathSort parent l =>
       sx_list (fun p => L [sx_text (fst p); A (snd p)])
               (sort_g (fun a b => path_ltb (parent ++ [fst a]) (parent ++ [fst b])) l)
+  | CRepr pl n d s m =>
+      sx_opt sx_text (match mk_entry n d s m with
+                      | None => None
+                      | Some e => repr_entry (fun c => existsb (Z.eqb c) pl) e
+                      end)
   end.
